@@ -25,7 +25,7 @@ def main():
     ids = [json.loads(l)["id"] for l in open(os.path.join(core.ROOT, "properties.jsonl"))]
     titles = {json.loads(l)["id"]: json.loads(l)["title"] for l in open(os.path.join(core.ROOT, "properties.jsonl"))}
     kf = core.load_known_findings()
-    L = [BEGIN, "", "## 11. Status by property (generated from the tree; supersedes sections 5 and 10 where they differ)", ""]
+    L = [BEGIN, "", "## 12. Status by property (generated from the tree; supersedes sections 5 and 10 where they differ)", ""]
     tot_thm = 0
     for pid in ids:
         try:
